@@ -36,8 +36,8 @@ deriving DecidableEq, Repr
 
 /-- shape facts of one list queue type the transition system is written against -/
 structure ConcFacts where
-  lockCovered : Bool   -- every method body runs under the queue's mutex (`Lock` first, `Unlock` deferred / last)
-  waitLoop : Bool      -- `for <empty (and open)> { … cond.Wait() }`: the guard is re-tested after every wake-up
+  lockCovered : Bool   -- AST: every method touching a guarded field locks first; unlock deferred or before every return
+  waitLoop : Bool      -- AST: every `Wait()` sits directly in a `for` whose condition re-tests emptiness
 deriving DecidableEq, Repr
 
 structure PriCfg where
@@ -67,9 +67,13 @@ structure Facts where
   mq : ConcFacts
   syncq : ConcFacts
   priq : PriFacts
+  closesStopChan : Bool    -- `Close`/`TryClose` close `stopChan` (what `WaitClose` callers block on), `TryClear` closes `clearChan`
+  methodSets : Bool        -- no method of a queue type outside the modelled ones, in any file of its package
+  priqLockCovered : Bool   -- PriQueue: `entries`/`curSeq` only touched under `mu`
 deriving DecidableEq, Repr
 
-def Facts.expected : Facts := ⟨⟨true, true⟩, ⟨true, true⟩, ⟨true, true⟩, ⟨true, true⟩, ⟨true, true⟩, ⟨true, true, true⟩⟩
+def Facts.expected : Facts :=
+  ⟨⟨true, true⟩, ⟨true, true⟩, ⟨true, true⟩, ⟨true, true⟩, ⟨true, true⟩, ⟨true, true, true⟩, true, true, true⟩
 
 def Cfg.wake (c : Cfg) : Kind → WakeCfg
   | .q => c.q | .async => c.async | .mux => c.mux | .mq => c.mq | .syncq => c.syncq
